@@ -482,7 +482,12 @@ def noteRescue (d : TDrv) (i ns : Nat) : TDrv :=
 
 /-- a granted request of size `n` decided locally by instance `i` at `ns`: the local meter -/
 def localGrant (c : TCfg) (burst rate : Nat) (r : Report) (s : Section) (l : Line) (d : TDrv) (i ns n : Nat) : TDrv × Report :=
-  if c.ival = 0 || !d.rmono i then (d, r) else
+  if c.ival = 0 then (d, r) else
+  -- `rescue_grant_needs_n_le_burst`: the local limiter never grants more than its size at once
+  let r := if n > burst then
+      r.violation s.idx l.idx s!"token: instance {i} granted a request for n={n} > burst={burst} tokens with its local limiter (the request's size must reach the limiter)"
+    else r
+  if !d.rmono i then (d, r) else
   let m := (d.local_ i).add 1 ns (n * c.ival)
   let d := { d with local_ := fun j => if j = i then m else d.local_ j }
   if m.level > burst * c.ival + d.slack i then
